@@ -510,7 +510,9 @@ func runC14(cfg *vh.Config) error {
 			N        int
 		}
 		routs := parallel(nFixed, "repeat", caseNo,
-			func(i int) any { return map[string]any{"files": bundles[i].Content, "packages": bundles[i].Packages, "call": "repeated compilation on fresh sets"} },
+			func(i int) any {
+				return map[string]any{"files": bundles[i].Content, "packages": bundles[i].Packages, "call": "repeated compilation on fresh sets"}
+			},
 			func(i int) repOut {
 				var o repOut
 				base := all[i].Runs[0]
